@@ -33,6 +33,7 @@ class Ctx:
         self.rule = None
         self.notes = []
         self.whitelist_used = set()
+        self._ord = {}
 
     # instance reporting --------------------------------------------------
     def ok(self, key, site="", detail=None):
@@ -50,6 +51,12 @@ class Ctx:
         else:
             self.bad(key, site, msg, detail)
         return cond
+
+    def nth(self, base):
+        """Key for the n-th site of one kind (in block order): keys carry no line numbers."""
+        k = (self.rule, base)
+        self._ord[k] = self._ord.get(k, 0) + 1
+        return "%s#%d" % (base, self._ord[k])
 
     def note(self, text):
         self.notes.append("%s: %s" % (self.rule, text))
